@@ -43,6 +43,27 @@ _KNOWN = _known_functions()
 ANCHORS = _anchors() if _KNOWN is None else (_anchors() & _KNOWN)
 
 
+def _anchor_files():
+    import json
+    try:
+        return json.load(open(os.path.join(os.path.dirname(_HERE), 'rules', 'anchor_names.json'))).get('files') or {}
+    except Exception:
+        return {}
+
+
+ANCHOR_FILES = _anchor_files()
+
+
+def is_anchor(g):
+    """A function the rules know by name (never inlined): its name is quoted in a rule source, existed when the rules were
+    written, and it lives in a file where a function of that name lived then."""
+    nm = g['name'].split('::')[-1]
+    if nm not in ANCHORS:
+        return False
+    fl = ANCHOR_FILES.get(nm)
+    return (not fl) or g.get('file') in fl
+
+
 def _json_keys(ctx):
     """Dictionary keys of the astq fact format (they are quoted all over the rule sources but are not function names)."""
     keys = set()
@@ -107,7 +128,7 @@ def resolve(ctx, f, c):
 
 def expandable(g, stop=()):
     nm = g['name'].split('::')[-1]
-    if nm in ANCHORS or nm in stop:
+    if is_anchor(g) or nm in stop:
         return False
     if str(g.get('trait') or '').startswith('Language'):
         return False
